@@ -181,6 +181,43 @@ fn rand_feature(r: &mut Rng, fi: usize) -> gherkin::Feature {
 // ---------------------------------------------------------------------------
 // C15
 
+/// A scenario outline with 2-3 Examples blocks carrying (mostly different) tags.
+fn c15_outline(r: &mut Rng, line: &mut usize, k: usize) -> gherkin::Scenario {
+    *line += 1;
+    let l = *line;
+    let examples = (0..r.range(2, 3))
+        .map(|_| {
+            *line += 2;
+            let el = *line;
+            let nrows = r.range(1, 2);
+            let mut rows = vec![vec!["a".to_owned()]];
+            for i in 0..nrows {
+                rows.push(vec![format!("v{i}")]);
+            }
+            *line += nrows + 1;
+            gherkin::Examples {
+                keyword: "Examples".into(),
+                name: None,
+                description: None,
+                table: Some(gherkin::Table { rows, span: span(), position: lc(el + 1, 7) }),
+                tags: rand_tags(r),
+                span: span(),
+                position: lc(el, 5),
+            }
+        })
+        .collect();
+    gherkin::Scenario {
+        keyword: "Scenario Outline".into(),
+        name: format!("outl alpha {k} <a>"),
+        description: None,
+        steps: vec![mk_step(l + 1, "step <a>")],
+        examples,
+        tags: rand_tags(r),
+        span: span(),
+        position: lc(l, 3),
+    }
+}
+
 #[derive(Clone)]
 struct VecParser(Vec<parser::Result<gherkin::Feature>>);
 
@@ -233,7 +270,35 @@ pub fn c15(seed: u64, idx: u64, t: &mut Tally) {
     }
 
     // (2) filtering through Cucumber::custom with a recording runner
-    let feats: Vec<gherkin::Feature> = (0..r.range(1, 3)).map(|i| rand_feature(&mut r, i)).collect();
+    let mut expanded_rows = 0u64;
+    let feats: Vec<gherkin::Feature> = (0..r.range(1, 3))
+        .map(|i| {
+            let mut f = rand_feature(&mut r, i);
+            // now and then scenario outlines with several, differently tagged Examples blocks,
+            // expanded as the parser does it: every row keeps a copy of *all* blocks
+            if r.chance(1, 3) {
+                let mut line = 500;
+                for k in 0..r.range(1, 2) {
+                    let o = c15_outline(&mut r, &mut line, k);
+                    let nr = f.rules.len();
+                    if nr > 0 && r.chance(1, 2) {
+                        let at = r.below(nr);
+                        let pos = r.below(f.rules[at].scenarios.len() + 1);
+                        f.rules[at].scenarios.insert(pos, o);
+                    } else {
+                        let pos = r.below(f.scenarios.len() + 1);
+                        f.scenarios.insert(pos, o);
+                    }
+                }
+                let before = f.scenarios.len() + f.rules.iter().map(|r| r.scenarios.len()).sum::<usize>();
+                f = f.expand_examples().expect("outline without unknown placeholders");
+                let after = f.scenarios.len() + f.rules.iter().map(|r| r.scenarios.len()).sum::<usize>();
+                expanded_rows += (after + 2).saturating_sub(before) as u64;
+            }
+            f
+        })
+        .collect();
+    t.count("c15.features_with_expanded_outline_rows", u64::from(expanded_rows > 0));
     let name_re = r.chance(1, 3).then(|| (*r.pick(&["alpha", "^beta", "a [0-2]$", "one|two|omega", "(?i)ALPHA", "z{3}"])).to_owned());
     let tag_ast = r.chance(1, 2).then(|| rand_ast(&mut r, 3));
     // --name and --tags conflict on the command line; as struct fields both may be set
@@ -397,7 +462,11 @@ fn outline(r: &mut Rng, line: &mut usize, name_i: usize, unknown: bool) -> (gher
         if unknown && r.chance(1, 3) { "<nope>".to_owned() } else { format!("<{}>", r.pick(&cols)) }
     };
     let texty = |r: &mut Rng, base: &str| -> String {
-        match r.below(6) {
+        match r.below(9) {
+            // `<>` is no placeholder (empty name), whatever follows it
+            6 => format!("{base}<>{}", ph(r)),
+            7 => format!("<>>{} <> {base}", ph(r)),
+            8 => format!("{}<><>> {}<>", ph(r), ph(r)),
             0 => base.to_owned(),
             1 => format!("{base} {}", ph(r)),
             2 => format!("{}{}", ph(r), ph(r)),
@@ -780,7 +849,7 @@ pub fn c17(seed: u64, idx: u64, t: &mut Tally) {
         let re = *r.pick(REGEXES);
         let loc = match r.below(3) {
             0 => None,
-            k => Some(step::Location { path: if k == 1 { "src/a.rs" } else { "src/b.rs" }, line: r.range(1, 3) as u32, column: 1 }),
+            k => Some(step::Location { path: if k == 1 { "src/a.rs" } else { "src/b.rs" }, line: r.range(1, 3) as u32, column: *r.pick(&[1u32, 1, 48]) }),
         };
         if defs.iter().any(|d| d.0 == kw && d.1 == re && d.2 == loc) {
             continue;
@@ -874,6 +943,11 @@ pub fn c17(seed: u64, idx: u64, t: &mut Tally) {
                     if g2 != exp {
                         t.violation("C17", "match:ambiguity-list", format!("ambiguity lists {got:?}, all matching definitions are {exp:?}"), idx, json!(null));
                     }
+                    // "deterministic": the same definitions always give the same list, which for
+                    // definitions that differ in anything is the list sorted by (regex, location)
+                    if got != exp {
+                        t.violation("C17", "match:ambiguity-order", format!("candidates listed as {got:?}, by regex and then location they are {exp:?}"), idx, json!(null));
+                    }
                     match &first_ambiguity {
                         None => first_ambiguity = Some(got),
                         Some(f) if *f != got => {
@@ -902,7 +976,7 @@ pub fn c17(seed: u64, idx: u64, t: &mut Tally) {
     let other_kw_match = (0..defs.len()).any(|i| defs[i].0 != kw && rx(defs[i].1).is_match(text));
     if matching.len() >= 2 || optional_absent || (matching.is_empty() && other_kw_match) {
         t.nontrivial_case("C17");
-        t.nontrivial("C17", fnv(&format!("{text}|{kw}|{:?}", defs.iter().map(|d| (d.0, d.1, d.2.map(|l| l.line))).collect::<Vec<_>>())));
+        t.nontrivial("C17", fnv(&format!("{text}|{kw}|{:?}", defs.iter().map(|d| (d.0, d.1, d.2.map(|l| (l.line, l.column)))).collect::<Vec<_>>())));
     }
     t.sample("c17", 2, || json!({"case_index": idx, "text": text, "keyword": kw, "definitions": defs.iter().map(|d| format!("{}:{}@{:?}", d.0, d.1, d.2.map(|l| (l.path, l.line)))).collect::<Vec<_>>(), "matching": matching}));
 }
